@@ -1,6 +1,6 @@
 """C12 - the output of a switch follows only the branch selected by the current key, which starts fresh."""
 import os
-from vlib import Case, Stream, BUILD, model_cmd
+from vlib import Case, Stream, BUILD, VERIF, model_cmd
 
 ID = "C12"
 LEAN_MODULES = ["HgVerif.Props.C12"]
@@ -190,7 +190,7 @@ def exhaustive_small(tier):
 def streams(rng, tier, seed):
     n = 700 if tier == "quick" else 20000
     cases = [gen_case(rng, i, tier) for i in range(n)] + exhaustive_small(tier)
-    cdir = os.path.join(os.path.dirname(BUILD), "corpus", "C12")
+    cdir = os.path.join(VERIF, "corpus", "C12")
     corpus = []
     if os.path.isdir(cdir):
         for f in sorted(os.listdir(cdir)):
@@ -552,3 +552,23 @@ def features(stream, case, out):
 
 def nontrivial(stream, case, out):
     return "nontrivial" in _spec(case, out)[1]
+
+
+def alarm_filter(stream, case, impl_out, model_out):
+    """Observable: recorded ticks, output value, error classes and the lifecycle events of every cycle in their
+    order.  Which of the two slots is disposed of first when the node storage is released (the order of the
+    D events in the `end` line) is slot-allocation policy: diagnostic only."""
+    notes, alarm = [], False
+    if len(impl_out) != len(model_out):
+        return True, ["line counts differ"]
+    for i, (a, b) in enumerate(zip(impl_out, model_out)):
+        if a == b:
+            continue
+        if a.startswith("end ev=") and b.startswith("end ev="):
+            ea, eb = a[7:].split(","), b[7:].split(",")
+            if sorted(ea) == sorted(eb) and [e for e in ea if e[0] != "D"] == [e for e in eb if e[0] != "D"]:
+                notes.append("line %d: disposal order of the two slots %s vs %s" % (i, a[7:], b[7:]))
+                continue
+        alarm = True
+        notes.append("line %d: %r vs %r" % (i, a, b))
+    return alarm, notes
